@@ -15,7 +15,13 @@ RULE = ("correspondence: extracted Coq model (level-map machine + rubric branch 
         "{include} files with :heading-offset: (scratch files); relation = tree of (section|rubric, level, marker) + multiset of "
         "[myst.header] warnings; search: parent of every section computed independently (closest preceding still-open heading of "
         "lower level), rubric levels, warning count; non-trivial = a document with a level skip, a level decrease or a nested heading")
-TRUSTED = ["coq/Sect/Sections.v is a hand transcription of setup_render/_level_to_section, update_section_level_state, render_heading, "
+TRUSTED = ["gen/c05_src.py (round 3) regenerates update_section_level_state, the section/rubric skeleton of render_heading and "
+           "nested_render_text._restore as Gallina code over the state record of Sect/Sections.v; domain mapping: _level_to_section = "
+           "association list in dict order, current_node / _heading_offset / md_env['temp_root_node'] = record fields, append / "
+           "create_warning(append_to=) = log entries, max of empty = ValueError, missing key = KeyError, isinstance(.., document|section) = "
+           "is_doc_or_section (any other class set is refused), the statements listed in RH_SKIP (line/source, attributes, classes, title "
+           "node, inline children, heading target) are dropped; refinement to the model proved in Sect/SectSrcProofs.v",
+           "coq/Sect/Sections.v is a hand transcription of setup_render/_level_to_section, update_section_level_state, render_heading, "
            "current_node_context, nested_render_text (base.py), MockState.nested_parse and MockIncludeDirective (mocking.py)",
            "markdown-it-py block structure: the generated markdown is parsed into the intended nesting of headings, quotes, list items, "
            "fences (the correspondence fails if it is not)",
@@ -29,7 +35,14 @@ ASSUMPTIONS = ["heading levels are 1..6 plus non-negative heading-offsets (offse
 
 
 def gen(ctx):
+    import hashlib
+    from gen import c05_src
+    from lib.common import COQ, REPO, write_if_changed
     ctx.gen_info["sources"] = src_hashes(["myst_parser/mdit_to_docutils/base.py", "myst_parser/mocking.py"])
+    # round 3: update_section_level_state / render_heading / nested_render_text._restore, statement by statement
+    src = c05_src.generate(REPO)
+    write_if_changed(COQ / "Gen" / "SectSrc.v", src)
+    ctx.gen_info["SectSrc"] = hashlib.sha256(src.encode()).hexdigest()[:16]
 
 
 # ------------------------------------------------------------------ documents
